@@ -1611,6 +1611,9 @@ hwloc__xml_import_memattr(hwloc_topology_t topology,
       if (!ret && mflags == flags)
         id = _id;
     }
+    /* values of these two attributes are computed from the objects, they cannot be set (set_value asserts) */
+    if (id == HWLOC_MEMATTR_ID_CAPACITY || id == HWLOC_MEMATTR_ID_LOCALITY)
+      id = (hwloc_memattr_id_t) -1;
     /* if there's no matching attribute, id is -1 and values will be ignored below */
   }
 
